@@ -91,14 +91,93 @@ def generate(rng, tier):
         case["prior"], case["prior_dz_factor"] = "dz", rng.choice([0.6, 0.8, 1.3, 1.7, 3.0])
     elif r_ < 0.22:
         case["prior"] = True
+    case["later"] = rng.random() < 0.1
     return case
 
 
 def describe(case):
+    if case.get("large"):
+        return case
     return c03.describe(case)
 
 
+def execute_large(case, stats):
+    """Sample boxes the simulator cannot reach (~10^6 samples): shipped front-end, compiled kernel, one numba thread, against a
+    vectorised column reference on a uniform 8^3 mesh (cell look-up by index).  Columns with a sample within 1e-9 of a cell face
+    are not judged."""
+    import numba
+    import osyris
+
+    from sim.mapmodel import build_mesh, cell_values, direction_arg, mesh_datagroup
+
+    lg = case["large"]
+    m = {"wseed": 11, "ndim": 3, "levelmin": 3, "levelmax": 3, "refine_p": 0.0, "maxcells": 600, "holes": 0.0, "hole_box": False, "unit": "cm", "scale": 1.0}
+    viol = []
+    out = {"violations": viol, "nontrivial": True, "signature": "large:" + core.digest(lg)[:12]}
+    cells = build_mesh(m)
+    dg = mesh_datagroup(m, cells)
+    dens = cell_values(m, cells)["density"]
+    grid = np.full((8, 8, 8), np.nan)
+    for c, val in zip(cells, dens):
+        ix, iy, iz = (int(c["pos"][d] * 8) for d in range(3))
+        grid[ix, iy, iz] = val
+    kw = {"dx": lg["dx"] * osyris.units("cm"), "dz": lg["dz"] * osyris.units("cm"), "origin": osyris.Vector(*lg["origin"], unit="cm"),
+          "direction": direction_arg(lg["direction"]), "resolution": {"x": lg["nx"], "y": lg["ny"], "z": lg["nz"]}, "operation": lg["op"], "plot": False}
+    old = numba.get_num_threads()
+    numba.set_num_threads(1)
+    try:
+        with np.errstate(all="ignore"), warnings.catch_warnings():
+            warnings.simplefilter("ignore")
+            plot = osyris.map(dg.layer("density"), **kw)
+    except Exception as e:
+        viol.append({"class": "frontend-exception", "clause": "large", "key": {"class": "frontend-exception", "clause": "large"}, "detail": {"error": f"{type(e).__name__}: {e}"[:300]}})
+        return out
+    finally:
+        numba.set_num_threads(old)
+    nuv, bad = c03.get_basis({"mesh": m, "direction": lg["direction"]}, dg, kw)
+    if bad is not None:
+        viol.append({"class": "basis", "clause": bad, "key": {"class": "basis", "clause": bad}, "detail": {}})
+        return out
+    n_, u, v = nuv
+    xs, ys = np.asarray(plot.x, dtype=float), np.asarray(plot.y, dtype=float)
+    nz, dz = lg["nz"], lg["dz"]
+    zs = -0.5 * dz + (np.arange(nz) + 0.5) * dz / nz
+    data = plot.layers[0]["data"]
+    got, mask = np.ma.getdata(data), np.ma.getmaskarray(data)
+    if got.shape != (lg["ny"], lg["nx"]):
+        viol.append({"class": "structure", "clause": "shape", "key": {"class": "structure", "clause": "shape"}, "detail": {"shape": list(got.shape)}})
+        return out
+    P = (np.asarray(lg["origin"], dtype=float)[None, None, None, :] + xs[None, None, :, None] * u[None, None, None, :]
+         + ys[None, :, None, None] * v[None, None, None, :] + zs[:, None, None, None] * n_[None, None, None, :])
+    F = P * 8.0
+    amb = np.any(np.abs(F - np.round(F)) < 1e-8, axis=3)
+    I = np.floor(F).astype(np.int64)
+    inside = np.all((I >= 0) & (I < 8), axis=3)
+    Ic = np.clip(I, 0, 7)
+    samples = np.where(inside, grid[Ic[..., 0], Ic[..., 1], Ic[..., 2]], np.nan)
+    with np.errstate(all="ignore"), warnings.catch_warnings():
+        warnings.simplefilter("ignore")
+        want = getattr(np, lg["op"])(samples, axis=0)
+    if lg["op"] in ("sum", "nansum"):
+        want = want * (dz / nz)
+    judged = ~np.any(amb, axis=0)
+    stats.inc("probe.large_thick_map_compiled_run")
+    stats.inc("steps.depth_samples_large", int(samples.size))
+    bad_mask = judged & (mask != np.isnan(want))
+    bad_val = judged & ~mask & ~np.isnan(want) & ~np.isclose(got, want, rtol=1e-9, atol=1e-12)
+    for name, b in (("mask@large", bad_mask), ("reduced-value@large", bad_val)):
+        if np.any(b):
+            j, i = [int(q) for q in np.argwhere(b)[0]]
+            viol.append({"class": "column", "clause": name, "key": {"class": "column", "clause": name},
+                         "detail": {"pixel": [j, i], "n_pixels_wrong": int(b.sum()), "operation": lg["op"], "nz": nz,
+                                    "got": None if mask[j, i] else float(got[j, i]), "want": None if np.isnan(want[j, i]) else float(want[j, i])}})
+            break
+    return out
+
+
 def execute(case, stats):
+    if case.get("large"):
+        return execute_large(case, stats)
     import osyris
 
     viol = []
@@ -186,6 +265,19 @@ def execute(case, stats):
     if bad is not None:
         V("basis", bad, {})
         return res
+    if case.get("later"):
+        # the returned Plot is looked at only after a later thick map of the same shape (another origin) was made
+        v_ = dict(case["view"])
+        v_["origin"] = [o + 0.11 * m["scale"] for o in v_["origin"]] if v_["origin"] is not None else [0.41 * m["scale"]] * 3
+        if case["view"]["origin"] is None:
+            v_["origin_unit"] = m["unit"]
+        try:
+            c03.call_map(dict(case, view=v_, knob=None), dg, lambda: Sim(T=1), extra=extra)
+        except HarnessError:
+            raise
+        except Exception:
+            pass
+        stats.inc("probe.plot_judged_after_a_later_map_of_the_same_shape")
     info = judge_thick(case, p1, c1, cells, loc, vals, origin_s, nuv, V, stats, dg)
     ks_ = kernel(MODNAME, KATTR)[2]
     if case.get("knob") and ks_ is not None and ks_.knobs:
@@ -409,11 +501,13 @@ def judge_thick(case, plot, call, cells, loc, vals, origin_s, nuv, V, stats, dg)
 
 
 def measure(case):
+    if case.get("large"):
+        return (case["large"]["nx"] * case["large"]["ny"] * case["large"]["nz"],)
     return c03.measure(case) + (int(case["operation"] != "sum") + sum(1 for l in case["layers"] if l.get("op")), int(case["dz_unit"] != case["mesh"]["unit"]))
 
 
 def canonical(case, viol):
-    if "decisions" in case or case["sched"]["T"] == 1:
+    if case.get("large") or "decisions" in case or case["sched"]["T"] == 1:
         return case
     r = execute(case, core.Stats())
     c = dict(case)
@@ -422,6 +516,8 @@ def canonical(case, viol):
 
 
 def reductions(case, viol):
+    if case.get("large"):
+        return
     for c in c03.reductions(case, viol):
         if c["mesh"].get("scale") != case["mesh"].get("scale") or c["mesh"]["unit"] != case["mesh"]["unit"]:
             sc = case["mesh"]["scale"]
@@ -464,4 +560,19 @@ def finalize(tier, base_seed, stats, viols):
         if not same_results(sim_out, real_out):
             raise HarnessError(f"model divergence: simulated T=1 != compiled T=1 for anchor case {r}")
         checked += 1
-    return {"fidelity_anchor": {"workloads_compiled_T1_equal_simulated_T1": checked, "attempted": nanchor}}
+    # ---- sample boxes beyond the simulator (~10^6 samples): shipped front-end + compiled kernel, one thread
+    import sys
+
+    nlarge = 0
+    for k in range(3 if tier == "quick" else 9):
+        rng = random.Random(core.H(base_seed, PROPERTY, "large", k))
+        dirs = [{"kind": "str", "s": rng.choice(["z", "x", "yzx"])}, {"kind": "vec", "v": [round(rng.uniform(-1, 1), 3) or 0.3 for _ in range(3)]}]
+        case = {"large": {"dx": round(rng.uniform(0.4, 1.2), 4), "dz": round(rng.uniform(0.2, 0.9), 4), "origin": [round(rng.uniform(0.3, 0.7), 5) + 1.37e-6 for _ in range(3)],
+                          "direction": dirs[k % 2], "nx": 128, "ny": rng.choice([96, 128]), "nz": rng.choice([70, 100, 90]), "op": ["mean", "nanmean", "sum", "nanmax", "min"][k % 5]},
+                "run": -1 - k, "seed": 0}
+        res = core.safe_execute(sys.modules[__name__], case, stats)
+        nlarge += 1
+        for v_ in res["violations"]:
+            viols.append({"case": case, "violation": v_})
+    return {"fidelity_anchor": {"workloads_compiled_T1_equal_simulated_T1": checked, "attempted": nanchor},
+            "large_maps": {"runs": nlarge, "how": "shipped front-end, compiled kernel, 1 numba thread, vectorised column reference, ~10^6 depth samples each"}}
